@@ -33,10 +33,10 @@ CLAIMED = {
         note="Partial: the composition 'every accepted command is drained exactly once' over all interleavings of ring pushes and pops is proved at the channel level in C09's theorems, not yet as one end-to-end theorem over `run`; the wall-clock bound (one report interval) is outside the model. Trusted: rtrb as a sequentially consistent FIFO; python spec.",
         design="§4 C01"),
     "C02": dict(
-        technique="Lean 4: id generator lemmas (non-zero, distinct in a thread for <2^32 draws, distinct across prefixes), token lemmas, collector stamping lemma (postprocess_core / C02_collection_stamps); differential fh-seq vs model; python spec oracle comparing every delivered (trace, parent) with the parent at creation",
-        text="Kernel-checked: C02_nth_id, C02_id_nonzero, C02_ids_distinct_in_thread, C02_ids_distinct_across_threads; C02_issueToken, C02_childN_token, C02_currentToken_parent, C02_startSpan, C02_finishSpan_restores (with the frame theorem C10 this is 'innermost open local span'); C02_postprocess_cores + C02_collection_stamps (for every batch and collector state each record carries its token item's trace id and the raw or token parent; mounting never changes ids/parents). "
+        technique="Lean 4: id generator lemmas (non-zero, distinct in a thread for <2^32 draws, distinct across prefixes), token lemmas, collector stamping lemma (postprocess_core / C02_collection_stamps), whole-program trace-id provenance invariant over `run` (C02_trace_ids_from_roots); differential fh-seq vs model; python spec oracle comparing every delivered (trace, parent) with the parent at creation",
+        text="Kernel-checked: C02_nth_id, C02_id_nonzero, C02_ids_distinct_in_thread, C02_ids_distinct_across_threads; C02_issueToken, C02_childN_token, C02_currentToken_parent, C02_startSpan, C02_finishSpan_restores (with the frame theorem C10 this is 'innermost open local span'); C02_postprocess_cores + C02_collection_stamps (for every batch and collector state each record carries its token item's trace id and the raw or token parent; mounting never changes ids/parents); C02_trace_ids_from_roots: for EVERY program of the model (all ops, threads, cycle placements, overload, exit) every reported record's trace id was supplied to a sampled root op (invariant Prov over span handles, adapters, span lines, rings, overflow lists, drain buffer, collections). "
              "Tie: generated programs (multi-parent spans across traces, nested scopes with open local spans, spans finished on any thread, cycles anywhere) on the real crate vs the model; oracle with unique span names checks trace id, parent id, id uniqueness of every delivered record.",
-        note="Assumes fewer than 2^32 ids per thread and distinct random thread prefixes (D12, environmental). The end-to-end statement over whole programs is the composition of the three proved parts; that composition is validated by the spec oracle, not stated as one Lean theorem.",
+        note="Assumes fewer than 2^32 ids per thread and distinct random thread prefixes (D12, environmental; the idSweep scenario measures prefix reuse over 70000 real threads). Trace ids are proved end-to-end over whole programs; the parent-id part of the end-to-end statement is still the composition of the proved parts (token lemmas + C10 frame + collector stamping), validated by the spec oracle.",
         design="§4 C02"),
     "C03": dict(
         technique="Lean 4: exact characterisation of a cancelable cycle's report (cancelable_cycle_records / commitGroups) + per-id buffering lemma; differential fh-seq vs model; python spec oracle (nothing before commit, single report, completeness)",
@@ -51,10 +51,10 @@ CLAIMED = {
         note="Partial: 'once cancel() has been called' needs the drop to be drained no later than the commit: same thread by FIFO of forced commands (C09, D2 fix); open findings D3 (parked drop lost when a thread exits with a full queue) and D4 (start drained after the drop re-creates the entry).",
         design="§4 C04"),
     "C05": dict(
-        technique="Lean 4: flag-copy lemmas, submit filter theorem, unsampled-root theorem, scope any-sampled lemma, collector trace-id provenance; differential fh-seq vs model; python spec oracle",
-        text="Kernel-checked: C05_issue_copies_flag, C05_scope_copies_flag, C05_scope_sampled_any, C05_unsampled_scope_inert, C05_unsampled_root (no start command, reserved collect id), C05_submit_filters / C05_filter_sampled_only / C05_all_unsampled_silent, C05_ctx_flag, C05_records_only_for_submitted. "
+        technique="Lean 4: whole-program invariant Prov proved preserved by every operation (C05_only_sampled_roots_delivered, C05_unsampled_trace_silent: for every program, no report contains a record of a trace that has no sampled root), plus flag-copy lemmas, submit filter theorem, unsampled-root theorem, scope any-sampled lemma; differential fh-seq vs model; python spec oracle",
+        text="Kernel-checked: C05_issue_copies_flag, C05_scope_copies_flag, C05_scope_sampled_any, C05_unsampled_scope_inert, C05_unsampled_root (no start command, reserved collect id), C05_submit_filters / C05_filter_sampled_only / C05_all_unsampled_silent, C05_ctx_flag, C05_records_only_for_submitted; and over `run Sys.init p` for every program p: C05_only_sampled_roots_delivered, C05_unsampled_trace_silent (non-vacuity examples by `decide` on a concrete mixed program). "
              "Tie: programs mixing sampled and unsampled roots with descendants through every propagation path and mixed parent sets; oracle: a delivered record must belong to a sampled token item of the program, contexts carry the root's flag.",
-        note="The whole-program statement (no record whose trace id is not that of a sampled root) is the composition of the proved parts via the token-provenance invariant, which is validated by the oracle rather than proved as one theorem.",
+        note="The whole-program statement (no record whose trace id is not that of a sampled root) is one kernel-checked theorem over the model. 'Contexts carry sampled=false' is proved per extraction step (C05_ctx_flag, C05_issue_copies_flag) and checked on every generated program by the contexts oracle.",
         design="§4 C05"),
     "C06": dict(
         technique="Lean 4: parking/mounting theorems (C06_park_order, C06_mount_exact under DistinctIds, C06_apply_items, D10 witness); differential fh-seq vs model; python spec oracle on properties/events of every record; known finding D10 replayed",
